@@ -445,9 +445,9 @@ impl Wb {
         match self {
             Wb::Xlsx(w) => Some(w.worksheet_range_ref(name).map(own_range).map_err(dbg)),
             Wb::Xlsb(w) => Some(w.worksheet_range_ref(name).map(own_range).map_err(dbg)),
-            Wb::Auto(w @ Sheets::Xlsx(_)) | Wb::Auto(w @ Sheets::Xlsb(_)) => {
-                Some(w.worksheet_range_ref(name).map(own_range).map_err(err_auto))
-            }
+            // `Sheets` implements `ReaderRef` for every format it wraps (the eager formats' own
+            // readers do not): through the wrapper the call is made for all four
+            Wb::Auto(w) => Some(w.worksheet_range_ref(name).map(own_range).map_err(err_auto)),
             _ => None,
         }
     }
@@ -531,7 +531,7 @@ impl Wb {
                         Ok(r) => Outcome::Ok(canon_range_ref(&r)),
                         Err(e) => Outcome::Err(dbg(e)),
                     },
-                    Wb::Auto(w @ Sheets::Xlsx(_)) | Wb::Auto(w @ Sheets::Xlsb(_)) => match w.worksheet_range_ref(&n) {
+                    Wb::Auto(w) => match w.worksheet_range_ref(&n) {
                         Ok(r) => Outcome::Ok(canon_range_ref(&r)),
                         Err(e) => Outcome::Err(err_auto(e)),
                     },
@@ -587,7 +587,7 @@ impl Wb {
                     Some(Ok(r)) => Outcome::Ok(canon_range_ref(&r)),
                     Some(Err(e)) => Outcome::Err(dbg(e)),
                 },
-                Wb::Auto(w @ Sheets::Xlsx(_)) | Wb::Auto(w @ Sheets::Xlsb(_)) => match w.worksheet_range_at_ref(*k) {
+                Wb::Auto(w) => match w.worksheet_range_at_ref(*k) {
                     None => Outcome::Absent,
                     Some(Ok(r)) => Outcome::Ok(canon_range_ref(&r)),
                     Some(Err(e)) => Outcome::Err(err_auto(e)),
